@@ -145,6 +145,8 @@ def version_records(tier, rng):
         strings.append((bad, 0, 0, 0))
     for num in (2.0, 2.2, 1.5, 1.4, 2.1, 1.3):
         strings.append((num, 1, int(str(num).split(".")[0]), int(str(num).split(".")[1])))
+    for num in (1, 2, 3):                     # whole numbers: major alone, minor 0
+        strings.append((num, 1, num, 0))
     if tier == "quick":
         strings = [s for i, s in enumerate(strings) if i % 2 == 0 or s[1] == 0 or s[3] in (0, 4, 5)]
     for text, valid, maj, mnr in strings:
@@ -163,6 +165,24 @@ def version_records(tier, rng):
         except Exception as exc:  # pylint: disable=broad-except
             cls_obs = "raised:" + type(exc).__name__
         V.append(["gw", valid, maj, mnr, cls_obs, repr(text)])
+        # which message is a smart-sleep wake-up also follows the version class: a heartbeat response is one in 2.0 / 2.1 only
+        try:
+            gh = mysensors.BaseSyncGateway(RecTransport(), protocol_version=text)
+            for ln in ("1;255;0;0;17;2.2\n", "1;0;0;0;3;lamp\n", "1;0;1;0;2;1\n", "1;255;3;0;22;500\n"):
+                gh.logic(ln)
+            while gh.tasks.queue:
+                gh.tasks.transport.send(gh.tasks.run_job())
+            del gh.tasks.transport.log[:]
+            try:
+                gh.set_child_value(1, 0, 2, "0")
+            except Exception:  # pylint: disable=broad-except
+                pass
+            while gh.tasks.queue:
+                gh.tasks.transport.send(gh.tasks.run_job())
+            hb_obs = "direct" if any(x.startswith("1;0;1;0;2;0") for x in gh.tasks.transport.log) else "held"
+        except Exception as exc:  # pylint: disable=broad-except
+            hb_obs = "raised:" + type(exc).__name__
+        V.append(["gwhb", valid, maj, mnr, hb_obs, repr(text)])
         # as the version a node presents (gateway 2.2)
         if isinstance(text, str) and ";" not in text:
             g = mysensors.BaseSyncGateway(RecTransport(), protocol_version="2.2")
